@@ -9,8 +9,8 @@ CONSTANTS
   Conts = {"list", "array"}
   Routes = {"netjson", "objjson", "deepcopy", "pickle"}
   MaxSer = 1
-  SerMaxN = 3
-  FullMaxN = 4
+  SerMaxN = 4
+  FullMaxN = 3
 INVARIANT TypeOK
 INVARIANT CacheIsFoldOfHistory
 INVARIANT CacheMeaning
